@@ -66,6 +66,28 @@ func (e *fnEnc) specSort(pkg string, te TypeExpr) (Sort, types.Type) {
 	if t, ok := e.eng.lookupType(pkg, te.Text); ok {
 		return e.sortOf(t), t
 	}
+	if t, ok := e.tpBind[te.Text]; ok {
+		return e.sortOf(t), t
+	}
+	// a type parameter of the function under contract
+	if e.fn != nil {
+		sig := e.fn.Signature
+		for _, tps := range []*types.TypeParamList{sig.TypeParams(), sig.RecvTypeParams()} {
+			if tps == nil {
+				continue
+			}
+			for i := 0; i < tps.Len(); i++ {
+				if tps.At(i).Obj().Name() == te.Text {
+					return e.sortOf(tps.At(i)), tps.At(i)
+				}
+			}
+		}
+		for _, p := range e.fn.Params {
+			if tp := findTypeParam(p.Type(), te.Text, 0); tp != nil {
+				return e.sortOf(tp), tp
+			}
+		}
+	}
 	e.fail("unknown type %q in spec", te.Text)
 	return "", nil
 }
@@ -212,7 +234,7 @@ func (e *fnEnc) evalSpec(x Expr, env *specEnv) SVal {
 			binders = append(binders, fmt.Sprintf("(%s %s)", nm, s))
 			v := SVal{t: Term{nm, s}, typ: t}
 			vars[b.Name] = v
-			if t != nil {
+			if t != nil && s != SAStr {
 				ranges = append(ranges, e.rangeOf(v.t, t))
 			}
 		}
@@ -743,6 +765,25 @@ func (e *fnEnc) evalCall(x *ECall, env *specEnv) SVal {
 				} else if n := namedName(rt); n != "" {
 					fnName = "(" + n + ")." + sel.Name
 				}
+				if c := e.eng.contracts[canonFuncName(fnName)]; c != nil && c.Options["pure"] != "" && e.eng.funcs[canonFuncName(fnName)] == nil {
+					// interface method: signature from go/types
+					if obj, _, _ := types.LookupFieldOrMethod(recv.typ, true, nil, sel.Name); obj != nil {
+						if mf, ok := obj.(*types.Func); ok {
+							msig := mf.Type().(*types.Signature)
+							ats := []Term{recv.t}
+							for i, a := range x.Args {
+								av := e.evalSpec(a, env)
+								ps := e.sortOf(msig.Params().At(i).Type())
+								t, _ := e.coerce(av, SVal{t: Term{"?", ps}})
+								ats = append(ats, t)
+							}
+							res := e.pureApp(canonFuncName(fnName), msig, ats)
+							if len(res) == 1 {
+								return SVal{t: res[0], typ: msig.Results().At(0).Type()}
+							}
+						}
+					}
+				}
 				if c := e.eng.contracts[fnName]; c != nil && c.Options["pure"] != "" {
 					if f := e.eng.funcs[fnName]; f != nil {
 						ats := []Term{recv.t}
@@ -955,6 +996,18 @@ func (e *fnEnc) evalCall(x *ECall, env *specEnv) SVal {
 	case "ptrOf":
 		need(1)
 		return SVal{t: ifPtr(args()[0].t)}
+	case "allocMark":
+		// the allocation counter: references <= allocMark() exist in this state
+		need(0)
+		return SVal{t: env.st.alloc}
+	case "elemsAt":
+		// elemsAt(s, b): the backing array with base b in the element heap of s's element type
+		need(2)
+		a := args()
+		et := types.Unalias(a[0].typ).Underlying().(*types.Slice).Elem()
+		es := e.sortOf(et)
+		comp, cs := e.elemCompT(et)
+		return SVal{t: sel(e.heapGet(env.st, comp, cs), e.intOf(a[1]), ArrayOf(SInt, es))}
 	case "elems":
 		// elems(s): the backing array of a slice as an SMT array (for frame specs)
 		need(1)
@@ -1050,8 +1103,10 @@ func (e *fnEnc) applySpecFunc(sf *SpecFunc, args []SVal, env *specEnv) SVal {
 		if t.Sort != ps {
 			e.fail("spec func %s: argument %d has sort %s, want %s", sf.Name, i, t.Sort, ps)
 		}
-		if pt == nil {
-			pt = nil
+		if a.typ != nil && pt != nil && e.sortOf(a.typ) == ps {
+			// keep the argument's own Go type (an instantiation of a generic type
+			// must not be replaced by the generic declaration)
+			pt = a.typ
 		}
 		vars[p.Name] = SVal{t: t, typ: pt}
 		argTerms = append(argTerms, t)
@@ -1156,4 +1211,35 @@ func (e *fnEnc) resolvePkgAlias(pkg, name string) string {
 		}
 	}
 	return name
+}
+
+// findTypeParam searches a type for a type parameter with the given name.
+func findTypeParam(t types.Type, name string, depth int) *types.TypeParam {
+	if depth > 4 {
+		return nil
+	}
+	switch x := types.Unalias(t).(type) {
+	case *types.TypeParam:
+		if x.Obj().Name() == name {
+			return x
+		}
+	case *types.Pointer:
+		return findTypeParam(x.Elem(), name, depth+1)
+	case *types.Slice:
+		return findTypeParam(x.Elem(), name, depth+1)
+	case *types.Named:
+		if ta := x.TypeArgs(); ta != nil {
+			for i := 0; i < ta.Len(); i++ {
+				if tp := findTypeParam(ta.At(i), name, depth+1); tp != nil {
+					return tp
+				}
+			}
+		}
+	case *types.Map:
+		if tp := findTypeParam(x.Key(), name, depth+1); tp != nil {
+			return tp
+		}
+		return findTypeParam(x.Elem(), name, depth+1)
+	}
+	return nil
 }
